@@ -620,6 +620,11 @@ def run(ctx):
     rmsg = ctx.rule("R10-MSG", "SpecialError's message for a variant prints that variant's payload fields, each once, in declaration order")
     message_rule(rmsg, fs["pest_typed"])
     rmsg.require(2, "messages with payload")
+    # the reported line / column and the echoed line come from Position::{line_col, line_of}: pest's (C12's instances)
+    from . import c12_c13
+    rln = ctx.rule("R10-LINES", "the line helpers that give the report its line, column and echoed text are pest's (C12's instances)")
+    c12_c13.compare_pairs(ctx, rln, facts.load("core"), ["position::Position::<'i>::line_col", "position::Position::<'i>::line_of", "position::Position::<'i>::find_line_start", "position::Position::<'i>::find_line_end"])
+    rln.require(4, "helpers")
 
     # ---- polarity & wrap on EDTs
     rp = ctx.rule("R10-POLARITY", "positive look-ahead runs its operand under polarity true, negative look-ahead under polarity false")
